@@ -106,6 +106,10 @@ pub struct SimCfg {
     /// simulated clock: tick per scheduling decision / clock read, and injected leaps
     #[serde(default)]
     pub clock: ClockSpec,
+    /// a pool thread that is blocked on nested parallel work runs further items of the enclosing
+    /// parallel iterator meanwhile (rayon's work stealing while blocked): re-entrancy on one thread
+    #[serde(default)]
+    pub steal: bool,
 }
 
 #[derive(Clone, Debug, Serialize, Deserialize, PartialEq)]
@@ -137,6 +141,7 @@ impl SimCfg {
             max_steps: 2_000_000,
             spawn_budget: default_spawn_budget(),
             clock: ClockSpec::default(),
+            steal: false,
         }
     }
 
@@ -177,6 +182,7 @@ impl SimCfg {
                 };
                 ClockSpec { tick_ns, jumps }
             },
+            steal: knobs.chance(0.6),
         }
     }
 }
@@ -240,6 +246,9 @@ impl Decider {
         self.step += 1;
         if step >= self.max_steps {
             self.rec.step_limited = true;
+            if std::env::var_os("OPWSIM_LOUD").is_some() {
+                eprintln!("opwsim: step limit {} reached", self.max_steps);
+            }
             return None;
         }
         let n = runnable.len();
@@ -372,6 +381,8 @@ pub struct Counters {
     pub n_clock_jumps_fired: u64,
     /// simulated time at the end of the execution (ns)
     pub clock_ns: u64,
+    pub n_steals_attempted: u64,
+    pub n_steals_ran: u64,
 }
 
 pub struct SimOut<R> {
@@ -435,7 +446,7 @@ pub fn install_panic_hook() {
             "<non-string panic payload>".to_string()
         };
         let loc = info.location().map(|l| format!("{}:{}", l.file(), l.line())).unwrap_or_default();
-        let quiet = QUIET.with(|q| *q.borrow() > 0);
+        let quiet = QUIET.with(|q| *q.borrow() > 0) && std::env::var_os("OPWSIM_LOUD").is_none();
         LAST_PANIC.with(|p| {
             let mut p = p.borrow_mut();
             // keep the FIRST panic of a run: shuttle re-panics with its own wrapper message later
@@ -444,6 +455,9 @@ pub fn install_panic_hook() {
             }
         });
         if !quiet {
+            if std::env::var_os("OPWSIM_BACKTRACE").is_some() {
+                eprintln!("{}", std::backtrace::Backtrace::force_capture());
+            }
             eprintln!("opwsim: panic: {msg} @ {loc}");
         }
     }));
@@ -495,6 +509,7 @@ impl Scheduler for EngineScheduler {
         ctx.pool = cfg.pool.clamp(1, 64);
         ctx.take = cfg.take.to_ctx();
         ctx.inner_full = cfg.inner_full;
+        ctx.steal = cfg.steal;
         ctx.aux = Rng::new(cfg.aux_seed);
         ctx.spawn_budget = cfg.spawn_budget;
         ctx.clock_tick_ns = cfg.clock.tick_ns;
@@ -638,6 +653,8 @@ where
         n_clock_reads: ctx.n_clock_reads,
         n_clock_jumps_fired: ctx.n_clock_jumps_fired,
         clock_ns: ctx.clock_ns,
+        n_steals_attempted: ctx.n_steals_attempted,
+        n_steals_ran: ctx.n_steals_ran,
     };
     SimOut {
         result,
